@@ -211,6 +211,18 @@ def run_lattice(case, seed):
             return dict(ok=False, sig="C05/conversion-roundtrip/sparse", msg="sparse->dense->sparse changes the table", count=cnt)
     if dense and not (np.array_equal(d2, sv) and np.array_equal(dm2, mu)):
         return dict(ok=False, sig="C05/conversion-roundtrip/dense", msg="dense->sparse->dense changes the table", count=cnt)
+    # a dense table is (count, address) rows into a shared pool of vectors: the same pool with the rows re-ordered (atoms listed in
+    # another order, or a sub-selection) is a valid dense table too, and converts pair by pair
+    dsv, dmu = (sv, mu) if dense else (d2, dm2)
+    for nm, rows in (("rows-reversed", np.arange(dmu.shape[0])[::-1]), ("every-other-row", np.arange(dmu.shape[0])[::2]), ("columns-reversed", None)):
+        mu_r = np.array(dmu[rows] if rows is not None else dmu[:, ::-1], dtype=dmu.dtype, order="C")
+        s3, m3 = dense_to_sparse_svecs(dsv, mu_r)
+        for i in range(mu_r.shape[0]):
+            for j in range(mu_r.shape[1]):
+                cnt_, adr = int(mu_r[i, j, 0]), int(mu_r[i, j, 1])
+                if m3[i, j] != cnt_ or not np.array_equal(s3[i, j, :cnt_], dsv[adr:adr + cnt_]):
+                    return dict(ok=False, sig="C05/conversion/dense-table-" + nm, count=cnt,
+                                msg="lattice %s: dense_to_sparse_svecs of a dense table with %s puts other vectors than those at the pair's address into pair (%d,%d)" % (case["lat"], nm, i, j))
     return dict(ok=True, nontrivial=bool(cnt["pairs_with_ties"] > 0 or cnt["pairs_min_outside_27"] > 0), transitions=1, count=cnt,
                 outcome="ok:maxmult=%d" % mm_)
 
